@@ -169,8 +169,14 @@ where
     let LayoutInput { known_dimensions, available_space, run_mode, .. } = inputs;
 
     // First we check if we have a cached result for the given input
+    #[cfg(taffy_verif)]
+    crate::verif_hooks::set_current_input(Some(inputs));
     let cache_entry = tree.cache_get(node, known_dimensions, available_space, run_mode);
+    #[cfg(taffy_verif)]
+    crate::verif_hooks::emit(crate::verif_hooks::Event::Query { node, input: inputs, hit: cache_entry.is_some() });
     if let Some(cached_size_and_baselines) = cache_entry {
+        #[cfg(taffy_verif)]
+        crate::verif_hooks::emit(crate::verif_hooks::Event::Return { node });
         debug_log_node!(known_dimensions, inputs.parent_size, available_space, run_mode, inputs.sizing_mode);
         debug_log!("RESULT (CACHED)", dbg:cached_size_and_baselines.size);
         debug_pop_node!();
@@ -182,7 +188,11 @@ where
     let computed_size_and_baselines = compute_uncached(tree, node, inputs);
 
     // Cache result
+    #[cfg(taffy_verif)]
+    crate::verif_hooks::set_current_input(Some(inputs));
     tree.cache_store(node, known_dimensions, available_space, run_mode, computed_size_and_baselines);
+    #[cfg(taffy_verif)]
+    crate::verif_hooks::emit(crate::verif_hooks::Event::Return { node });
 
     debug_log!("RESULT", dbg:computed_size_and_baselines.size);
     debug_pop_node!();
@@ -263,6 +273,8 @@ pub fn round_layout(tree: &mut impl RoundTree, node_id: NodeId) {
 /// Each hidden node has zero size and is placed at the origin
 pub fn compute_hidden_layout(tree: &mut (impl LayoutPartialTree + CacheTree), node: NodeId) -> LayoutOutput {
     // Clear cache and set zeroed-out layout for the node
+    #[cfg(taffy_verif)]
+    crate::verif_hooks::emit(crate::verif_hooks::Event::Hidden { node });
     tree.cache_clear(node);
     tree.set_unrounded_layout(node, &Layout::with_order(0));
 
